@@ -2,27 +2,6 @@
 impl ImmutableTrees {
     /// ghost: the tree ids of the index present in the database when this view was frozen
     pub uninterp spec fn db_has(&self, id: u32) -> bool;
-    /// parallel.rs::ImmutableTrees::new: every tree node of the index (scan of Prefix::tree(index))
-    #[verifier::external_body]
-    pub fn new(rtxn: &Txn, database: Database, index: u16, nb_trees: u64) -> (r: heed::Result<ImmutableTrees>)
-        ensures is_heed(r),
-            r matches Ok(t) ==> t.snap() == tmap(rtxn.view(), index)
-                && (forall|id: u32| #![trigger t.db_has(id)] t.db_has(id) <==> rtxn.view().contains_key(tkey(index, id))),
-    { unimplemented!() }
-    /// parallel.rs::ImmutableTrees::sub_tree_from_id: exactly the nodes of the subtree rooted at `start`
-    #[verifier::external_body]
-    pub fn sub_tree_from_id(rtxn: &Txn, database: Database, index: u16, start: ItemId) -> (r: Result<ImmutableTrees>)
-        requires tree(tmap(rtxn.view(), index), tn(start))
-        ensures
-            r matches Ok(t) ==> (forall|id: u32| #![trigger t.snap().contains_key(id)] t.snap().contains_key(id) <==> tnodes(tmap(rtxn.view(), index), tn(start)).contains(id))
-                && (forall|id: u32| #![trigger t.snap().contains_key(id)] t.snap().contains_key(id) ==> t.snap()[id] == tmap(rtxn.view(), index)[id])
-                && (forall|id: u32| #![trigger t.db_has(id)] t.db_has(id) <==> rtxn.view().contains_key(tkey(index, id))),
-            r matches Err(e) ==> e is Heed,
-    { unimplemented!() }
-    #[verifier::external_body]
-    pub fn empty() -> (r: ImmutableTrees)
-        ensures r.snap() == IMap::<u32, TNode>::empty(), forall|id: u32| !r.db_has(id)
-    { unimplemented!() }
 }
 /// a staging area created during a pass avoids every tree id the frozen view saw in the database (rule R14 with //@tmpctx)
 impl<'a> FreshCtx for FrozzenReader<'a> { open spec fn has_tree(&self, i: u16, id: u32) -> bool { self.trees.db_has(id) } }
